@@ -5,13 +5,6 @@ import GSProofs.Lemmas.MsgQueueLive7
 namespace GS.MQ
 open GS.Alloc
 
-theorem attempt_pc (pick : Pick) (s : State) (m : InFlight) (i : Nat) :
-    (s.attempt pick m i).pc = .sending m i ∨ (s.attempt pick m i).pc = .idle := by
-  unfold State.attempt
-  split
-  · exact Or.inl rfl
-  · exact Or.inr rfl
-
 theorem run_ne_exited (pick : Pick) (s : State) (pw : Bool) (h : s.pc ≠ .exited) : (s.run pick pw).pc ≠ .exited := by
   obtain ⟨peer, maxRetries, builders, nextTopic, token, done, sender, pc, closedStreams, waiters,
     nextTicket, topics, pubClosed, alloc, log⟩ := s
